@@ -2,7 +2,7 @@
    (Ref/Rfc9113Frame.v):
      model_parse_never_panics      load_frame / model_parse never reach a Rust panic
      C12_parse_agrees_with_rfc     same accept / reject decision and same values, outside the
-                                   four documented deviations (each characterised separately)
+                                   boundary of the codec (rfc_parse_frame_codec)
      C12_roundtrip_*               what the encoders emit is parsed back, by the reference parser
                                    and by the model's own parser, to the value that was sent *)
 From H2V Require Import Base.Tac Base.Bytes Gen.FrameConsts Ref.Rfc9113Frame Model.FrameCodec.
@@ -393,24 +393,20 @@ Qed.
 
 Lemma agree_push_promise k fl sid payload :
   bytes_ok payload = true ->
-  (negb (sid =? 0)
-   && (olen payload =? (if flag fl F_PADDED then 5 else 4))
-   && (if flag fl F_PADDED then match payload with p :: _ => p =? 0 | [] => false end else true)) = false ->
   agree (lift KPushPromise sid (push_promise_load (mk_head k fl sid) payload))
         (parse_payload T_PUSH_PROMISE fl sid payload) = true.
 Proof.
-  intros Hb Hdev. unfold parse_payload.
+  intros Hb. unfold parse_payload.
   change (T_PUSH_PROMISE =? T_DATA) with false. change (T_PUSH_PROMISE =? T_HEADERS) with false.
   change (T_PUSH_PROMISE =? T_PRIORITY) with false. change (T_PUSH_PROMISE =? T_RST_STREAM) with false.
   change (T_PUSH_PROMISE =? T_SETTINGS) with false. change (T_PUSH_PROMISE =? T_PUSH_PROMISE) with true. cbv iota.
   unfold push_promise_load. cbn [h_sid h_flag mk_head].
-  destruct (sid =? 0) eqn:Es; [reflexivity|]. cbn [negb andb] in Hdev.
+  destruct (sid =? 0) eqn:Es; [reflexivity|].
   unfold headers_PADDED, F_PADDED in *. change flag with has_bit in *. change olen with lenN in *.
   unfold pad_length.
   assert (Hcore : forall (pad : option N) (src1 : list N), bytes_ok src1 = true ->
-     (lenN src1 =? 4) && (match pad with Some p => p =? 0 | None => true end) = false ->
      agree (lift KPushPromise sid
-        (if lenN src1 <? 5 then Err MalformedMessage else
+        (if lenN src1 <? 4 then Err MalformedMessage else
          match src1 with
          | a :: b :: c :: d :: src2 =>
              src3 <- (match pad with
@@ -428,37 +424,24 @@ Proof.
             end
         | _ => Reject FRAME_SIZE_ERROR
         end) = true).
-  { intros pad src1 Hb1 Hd.
+  { intros pad src1 Hb1.
     destruct src1 as [|a [|b [|c [|d src2]]]]; try reflexivity.
     apply bytes_ok_cons in Hb1 as (Ha & Hb1). apply bytes_ok_cons in Hb1 as (Hb' & Hb1).
     apply bytes_ok_cons in Hb1 as (Hc & Hb1). apply bytes_ok_cons in Hb1 as (Hd' & Hb1).
     rewrite (parse_sid_u31 a b c d Ha Hb' Hc Hd'). cbn [fst].
     rewrite !lenN_cons in *.
-    destruct (1 + (1 + (1 + (1 + lenN src2))) <? 5) eqn:E5; [apply N.ltb_lt in E5 | apply N.ltb_ge in E5].
-    - (* exactly four octets after the pad length: the deviation, excluded unless the padding is too long *)
-      assert (E0 : lenN src2 = 0) by lia.
-      assert (E4 : (1 + (1 + (1 + (1 + lenN src2))) =? 4) = true) by (apply N.eqb_eq; lia).
-      rewrite E4 in Hd. cbn [andb] in Hd.
-      destruct pad as [p|]; [|discriminate].
-      unfold strip_trailing. change olen with lenN. rewrite E0.
-      destruct (p <=? 0) eqn:Ep; [apply N.leb_le in Ep | reflexivity].
-      apply N.eqb_neq in Hd. lia.
-    - destruct pad as [p|].
-      + rewrite strip_agree. destruct (strip_trailing (Some p) src2); [|reflexivity].
-        cbn [bind lift agree wire_matches]. unfold headers_END_HEADERS, F_END_HEADERS.
-        rewrite !N.eqb_refl, Bool.eqb_reflx, list_N_eqb_refl. reflexivity.
-      + cbn [strip_trailing bind lift agree wire_matches]. unfold headers_END_HEADERS, F_END_HEADERS.
-        rewrite !N.eqb_refl, Bool.eqb_reflx, list_N_eqb_refl. reflexivity. }
+    destruct (1 + (1 + (1 + (1 + lenN src2))) <? 4) eqn:E5; [apply N.ltb_lt in E5; lia|].
+    destruct pad as [p|].
+    - rewrite strip_agree. destruct (strip_trailing (Some p) src2); [|reflexivity].
+      cbn [bind lift agree wire_matches]. unfold headers_END_HEADERS, F_END_HEADERS.
+      rewrite !N.eqb_refl, Bool.eqb_reflx, list_N_eqb_refl. reflexivity.
+    - cbn [strip_trailing bind lift agree wire_matches]. unfold headers_END_HEADERS, F_END_HEADERS.
+      rewrite !N.eqb_refl, Bool.eqb_reflx, list_N_eqb_refl. reflexivity. }
   destruct (has_bit fl 8) eqn:Epad.
   - destruct payload as [|p rest]; [reflexivity|].
     apply bytes_ok_cons in Hb as (_ & Hb). cbn [bind].
-    apply (Hcore (Some p) rest Hb).
-    rewrite lenN_cons in Hdev.
-    destruct (lenN rest =? 4) eqn:E4; [apply N.eqb_eq in E4 | reflexivity].
-    assert (E5 : (1 + lenN rest =? 5) = true) by (apply N.eqb_eq; lia).
-    rewrite E5 in Hdev. exact Hdev.
-  - cbn [bind]. specialize (Hcore None payload Hb).
-    rewrite andb_true_r in Hdev. rewrite andb_true_r in Hcore. exact (Hcore Hdev).
+    exact (Hcore (Some p) rest Hb).
+  - cbn [bind]. exact (Hcore None payload Hb).
 Qed.
 
 Lemma agree_unknown ty fl sid payload :
@@ -718,7 +701,7 @@ Lemma push_promise_no_panic h p : push_promise_load h p <> Panic.
 Proof.
   unfold push_promise_load. destruct (h_sid h =? 0); [discriminate|].
   assert (Hcore : forall pad src1,
-    (if lenN src1 <? 5 then Err MalformedMessage else
+    (if lenN src1 <? 4 then Err MalformedMessage else
      match src1 with
      | a :: b :: c :: d :: src2 =>
          src3 <- (if 0 <? pad then if lenN src2 <? pad then Err TooMuchPadding
@@ -726,7 +709,7 @@ Proof.
          Ok (FPushPromise (h_sid h) (h_flag h) (fst (parse_sid a b c d)) src3)
      | _ => Panic
      end) <> Panic).
-  { intros pad src1. destruct (lenN src1 <? 5) eqn:E; [discriminate|]. apply N.ltb_ge in E.
+  { intros pad src1. destruct (lenN src1 <? 4) eqn:E; [discriminate|]. apply N.ltb_ge in E.
     destruct src1 as [|a [|b [|c [|d src2]]]]; try (cbn in E; lia).
     pose proof (pad_step_no_panic pad src2) as H.
     destruct (if 0 <? pad then _ else _); cbn [bind]; congruence. }
@@ -784,7 +767,9 @@ Proof.
   - apply data_no_panic. - apply headers_no_panic.
   - destruct (_ =? 0); [discriminate|]. apply lift_no_panic, priority_no_panic.
   - apply reset_no_panic. - apply settings_no_panic. - apply push_promise_no_panic.
-  - apply ping_no_panic. - apply go_away_no_panic. - apply window_update_no_panic.
+  - apply ping_no_panic.
+  - destruct (negb _); [discriminate|]. apply lift_no_panic, go_away_no_panic.
+  - apply window_update_no_panic.
   - discriminate. - discriminate.
 Qed.
 
@@ -821,13 +806,29 @@ Proof.
   apply N.eqb_neq in E3, E5, E7, E9. tauto.
 Qed.
 
-Theorem C12_parse_agrees_with_rfc max bs :
-  bytes_ok bs = true -> deviation_of bs = DevNone ->
-  agree (model_parse max bs) (rfc_parse_frame max bs) = true.
+(* the codec-boundary grammar is the plain grammar except for RST_STREAM / CONTINUATION on stream 0 *)
+Lemma parse_payload_codec_same ty fl sid payload :
+  (ty = 3 -> sid <> 0) -> (ty = 9 -> sid <> 0) ->
+  parse_payload_codec ty fl sid payload = parse_payload ty fl sid payload.
 Proof.
-  intros Hb Hdev.
+  intros H3 H9. unfold parse_payload_codec, T_RST_STREAM, T_CONTINUATION.
+  destruct (ty =? 3) eqn:E3.
+  - apply N.eqb_eq in E3. specialize (H3 E3). apply N.eqb_neq in H3. rewrite H3. cbn [andb].
+    subst ty. reflexivity.
+  - cbn [andb]. destruct (ty =? 9) eqn:E9; [|reflexivity].
+    apply N.eqb_eq in E9. specialize (H9 E9). apply N.eqb_neq in H9. rewrite H9. reflexivity.
+Qed.
+
+(* C12: every octet string gets the same verdict, and on acceptance the same value, from the model
+   of h2's frame loader (as decode_frame dispatches it) and from the RFC 9113 grammar at the codec
+   boundary -- no exception. *)
+Theorem C12_parse_agrees_with_rfc max bs :
+  bytes_ok bs = true ->
+  agree (model_parse max bs) (rfc_parse_frame_codec max bs) = true.
+Proof.
+  intros Hb.
   destruct bs as [|l0 [|l1 [|l2 r]]]; try reflexivity.
-  unfold model_parse, rfc_parse_frame.
+  unfold model_parse, rfc_parse_frame_codec, rfc_parse_frame_with.
   replace (l0 * 65536 + l1 * 256 + l2) with ((l0 * 256 + l1) * 256 + l2) by lia.
   set (n := (l0 * 256 + l1) * 256 + l2) in *.
   destruct (max <? n) eqn:Emax; [reflexivity|].
@@ -849,49 +850,81 @@ Proof.
   apply bytes_ok_cons in Hb as (H1 & Hb). apply bytes_ok_cons in Hb as (H0 & Hb).
   unfold load_frame. cbn [parse_head]. rewrite (parse_sid_u31 s3 s2 s1 s0 H3 H2 H1 H0). cbn [fst h_sid h_kind h_flag].
   set (sid := u31_of s3 s2 s1 s0) in *.
-  cbn [deviation_of] in Hdev. fold sid in Hdev.
-  unfold T_PUSH_PROMISE, T_GOAWAY, T_RST_STREAM, T_CONTINUATION in Hdev.
   change {| h_kind := ty; h_flag := fl; h_sid := sid |} with (mk_head ty fl sid).
   destruct (kind_new_cases ty) as [(Et & Ek)|[(Et & Ek)|[(Et & Ek)|[(Et & Ek)|[(Et & Ek)|[(Et & Ek)|[(Et & Ek)|
      [(Et & Ek)|[(Et & Ek)|[(Et & Ek)|(Ek & N5 & N7 & N3 & N9)]]]]]]]]]]; rewrite Ek; try subst ty.
-  - apply agree_data.
-  - apply agree_headers, Hb.
-  - destruct (sid =? 0) eqn:Es.
+  - rewrite parse_payload_codec_same by (intros; discriminate). apply agree_data.
+  - rewrite parse_payload_codec_same by (intros; discriminate). apply agree_headers, Hb.
+  - rewrite parse_payload_codec_same by (intros; discriminate).
+    destruct (sid =? 0) eqn:Es.
     + apply N.eqb_eq in Es. rewrite Es. reflexivity.
     + apply agree_priority; [exact Hb | apply N.eqb_neq, Es].
-  - (* RST_STREAM: stream 0 with a 4 octet payload is the documented deviation *)
-    change (3 =? 5) with false in Hdev. change (3 =? 7) with false in Hdev. change (3 =? 3) with true in Hdev.
-    cbv iota in Hdev. change olen with lenN in Hdev.
+  - (* RST_STREAM: on stream 0 the frame is handed up unchanged (the stream layer refuses it) *)
     destruct (sid =? 0) eqn:Es.
-    + apply N.eqb_eq in Es. cbn [andb] in Hdev.
-      destruct (lenN payload =? 4) eqn:E4; [discriminate|].
-      rewrite Es. unfold reset_load. rewrite E4. reflexivity.
-    + apply agree_reset. apply N.eqb_neq, Es.
-  - apply agree_settings, Hb.
-  - change (5 =? 5) with true in Hdev. cbv iota in Hdev.
-    apply agree_push_promise; [exact Hb|].
-    destruct (negb (sid =? 0) && (olen payload =? (if flag fl F_PADDED then 5 else 4)) &&
-              (if flag fl F_PADDED then match payload with p :: _ => p =? 0 | [] => false end else true));
-      [discriminate | reflexivity].
-  - apply agree_ping.
-  - (* GOAWAY: a non-zero stream id with >= 8 octets is the documented deviation *)
-    change (7 =? 5) with false in Hdev. change (7 =? 7) with true in Hdev. cbv iota in Hdev.
-    change olen with lenN in Hdev.
-    destruct (sid =? 0) eqn:Es.
+    + apply N.eqb_eq in Es. rewrite Es. unfold parse_payload_codec.
+      change ((3 =? T_RST_STREAM) && (0 =? 0)) with true. cbv iota.
+      unfold reset_load. cbn [h_sid mk_head].
+      destruct payload as [|a [|b [|c [|d [|e rest]]]]]; try reflexivity.
+      * change (lenN [a; b; c; d] =? 4) with true. cbn [negb lift agree wire_matches].
+        rewrite dec_u32_u32_of, !N.eqb_refl. reflexivity.
+      * assert (E : (lenN (a :: b :: c :: d :: e :: rest) =? 4) = false).
+        { apply N.eqb_neq. rewrite !lenN_cons. lia. }
+        rewrite E. reflexivity.
+    + apply N.eqb_neq in Es. rewrite parse_payload_codec_same by (intros; try discriminate; exact Es).
+      apply agree_reset. exact Es.
+  - rewrite parse_payload_codec_same by (intros; discriminate). apply agree_settings, Hb.
+  - rewrite parse_payload_codec_same by (intros; discriminate). apply agree_push_promise, Hb.
+  - rewrite parse_payload_codec_same by (intros; discriminate). apply agree_ping.
+  - (* GOAWAY: decode_frame refuses a non-zero stream before GoAway::load *)
+    rewrite parse_payload_codec_same by (intros; discriminate).
+    destruct (sid =? 0) eqn:Es; cbn [negb].
     + apply N.eqb_eq in Es. rewrite Es. apply agree_goaway, Hb.
-    + cbn [negb andb] in Hdev. destruct (8 <=? lenN payload) eqn:E8; [discriminate|]. apply N.leb_gt in E8.
-      unfold go_away_load. destruct (lenN payload <? 8) eqn:E8'; [|apply N.ltb_ge in E8'; lia].
-      unfold parse_payload. change (T_GOAWAY =? T_DATA) with false. change (T_GOAWAY =? T_HEADERS) with false.
+    + unfold parse_payload. change (T_GOAWAY =? T_DATA) with false. change (T_GOAWAY =? T_HEADERS) with false.
       change (T_GOAWAY =? T_PRIORITY) with false. change (T_GOAWAY =? T_RST_STREAM) with false.
       change (T_GOAWAY =? T_SETTINGS) with false. change (T_GOAWAY =? T_PUSH_PROMISE) with false.
       change (T_GOAWAY =? T_PING) with false. change (T_GOAWAY =? T_GOAWAY) with true. cbv iota.
       rewrite Es. reflexivity.
-  - apply agree_window_update, Hb.
-  - change (9 =? 5) with false in Hdev. change (9 =? 7) with false in Hdev. change (9 =? 3) with false in Hdev.
-    change (9 =? 9) with true in Hdev. cbv iota in Hdev.
-    destruct (sid =? 0) eqn:Es; [discriminate|].
-    apply agree_continuation. apply N.eqb_neq, Es.
-  - apply agree_unknown, Ek.
+  - rewrite parse_payload_codec_same by (intros; discriminate). apply agree_window_update, Hb.
+  - (* CONTINUATION: on stream 0 handed to the reassembly, which refuses it *)
+    destruct (sid =? 0) eqn:Es.
+    + apply N.eqb_eq in Es. rewrite Es. unfold parse_payload_codec.
+      change ((9 =? T_RST_STREAM) && (0 =? 0)) with false. change ((9 =? T_CONTINUATION) && (0 =? 0)) with true.
+      cbv iota. cbn [agree wire_matches]. rewrite N.eqb_refl, list_N_eqb_refl.
+      change flag with has_bit. unfold continuation_END_HEADERS, F_END_HEADERS. rewrite Bool.eqb_reflx. reflexivity.
+    + apply N.eqb_neq in Es. rewrite parse_payload_codec_same by (intros; try discriminate; exact Es).
+      apply agree_continuation. exact Es.
+  - rewrite parse_payload_codec_same by (intros; congruence). apply agree_unknown, Ek.
+Qed.
+
+(* where the codec-boundary grammar and the plain grammar differ, the plain grammar rejects and the
+   frame is one of the two kinds that upper layers refuse *)
+Theorem codec_boundary_only_defers max bs w :
+  rfc_parse_frame_codec max bs = Accept w ->
+  rfc_parse_frame max bs = Accept w \/
+  (deferred_to_upper_layer w = true /\ rfc_parse_frame max bs = Reject PROTOCOL_ERROR).
+Proof.
+  unfold rfc_parse_frame_codec, rfc_parse_frame, rfc_parse_frame_with.
+  destruct bs as [|l2 [|l1 [|l0 after]]]; try discriminate.
+  destruct (max <? _); [discriminate|].
+  destruct after as [|ty [|fl [|s3 [|s2 [|s1 [|s0 payload]]]]]]; try discriminate.
+  destruct (negb _); [discriminate|].
+  unfold parse_payload_codec.
+  destruct ((ty =? T_RST_STREAM) && (u31_of s3 s2 s1 s0 =? 0)) eqn:E1.
+  - apply andb_true_iff in E1 as [Et Es]. apply N.eqb_eq in Et. subst ty.
+    destruct payload as [|a [|b [|c [|d [|e rest]]]]]; try discriminate.
+    intros H. injection H as <-. right. split; [reflexivity|].
+    unfold parse_payload. change (T_RST_STREAM =? T_DATA) with false. change (T_RST_STREAM =? T_HEADERS) with false.
+    change (T_RST_STREAM =? T_PRIORITY) with false. change (T_RST_STREAM =? T_RST_STREAM) with true. cbv iota.
+    rewrite Es. reflexivity.
+  - destruct ((ty =? T_CONTINUATION) && (u31_of s3 s2 s1 s0 =? 0)) eqn:E2; [|auto].
+    apply andb_true_iff in E2 as [Et Es]. apply N.eqb_eq in Et. subst ty.
+    intros H. injection H as <-. right. split; [reflexivity|].
+    unfold parse_payload. change (T_CONTINUATION =? T_DATA) with false. change (T_CONTINUATION =? T_HEADERS) with false.
+    change (T_CONTINUATION =? T_PRIORITY) with false. change (T_CONTINUATION =? T_RST_STREAM) with false.
+    change (T_CONTINUATION =? T_SETTINGS) with false. change (T_CONTINUATION =? T_PUSH_PROMISE) with false.
+    change (T_CONTINUATION =? T_PING) with false. change (T_CONTINUATION =? T_GOAWAY) with false.
+    change (T_CONTINUATION =? T_WINDOW_UPDATE) with false. change (T_CONTINUATION =? T_CONTINUATION) with true.
+    cbv iota. rewrite Es. reflexivity.
 Qed.
 
 (* ---------------------------------------------------------------------------------------- *)
@@ -908,7 +941,9 @@ Definition dispatch (h : head) (payload : list N) : parse_result :=
   | KData => lift k (h_sid h) (data_load h payload)
   | KHeaders => lift k (h_sid h) (headers_load h payload)
   | KReset => lift k (h_sid h) (reset_load h payload)
-  | KGoAway => lift k (h_sid h) (go_away_load payload)
+  | KGoAway =>
+      if negb (h_sid h =? 0) then PErrGoAwayStream
+      else lift k (h_sid h) (go_away_load payload)
   | KPushPromise => lift k (h_sid h) (push_promise_load h payload)
   | KPriority =>
       if h_sid h =? 0 then PErrPriorityZero
@@ -944,7 +979,7 @@ Lemma rfc_parse_encoded max k fl sid payload :
 Proof.
   intros Hk Hf Hs Hm H24.
   unfold head_encode, enc_u24, enc_u32. cbn [app].
-  unfold rfc_parse_frame. change olen with lenN.
+  unfold rfc_parse_frame, rfc_parse_frame_with. change olen with lenN.
   set (len := lenN payload) in *.
   assert (E1 : (len / 65536) mod 256 * 65536 + (len / 256) mod 256 * 256 + len mod 256 = len) by lia.
   rewrite E1.
@@ -974,9 +1009,6 @@ Definition single_frame (max : N) (f : frame) : bool :=
   | FPushPromise _ _ _ block => 4 + lenN block <=? max
   | _ => true
   end.
-
-Definition pp_block_nonempty (f : frame) : bool :=
-  match f with FPushPromise _ _ _ block => negb (lenN block =? 0) | _ => true end.
 
 Lemma roundtrip_data max sid flags pad data :
   max <= FrameConsts.MAX_MAX_FRAME_SIZE -> frame_wf max (FData sid flags pad data) = true ->
@@ -1040,7 +1072,7 @@ Lemma roundtrip_push_promise max sid flags promised block :
   4 + lenN block <= max ->
   exists bs, encode max (FPushPromise sid flags promised block) = EOk bs /\
     rfc_parse_frame max bs = Accept (wire_value_of (FPushPromise sid flags promised block)) /\
-    (lenN block <> 0 -> model_parse max bs = POk (LdFrame (FPushPromise sid flags promised block))).
+    model_parse max bs = POk (LdFrame (FPushPromise sid flags promised block)).
 Proof.
   intros H4 Hmax Hwf Hlen. cbn [frame_wf] in Hwf. unfold sid_ok in Hwf. split_andb. boolprops.
   unfold FrameConsts.MAX_MAX_FRAME_SIZE in Hmax. unfold headers_END_HEADERS in *. subst flags.
@@ -1064,10 +1096,10 @@ Proof.
     change (5 =? T_PUSH_PROMISE) with true. cbv iota. rewrite Hs.
     change (flag 4 F_PADDED) with false. cbn [pad_length]. unfold enc_u32. cbn [app strip_trailing].
     rewrite Hp. reflexivity.
-  - intros Hne. unfold dispatch, push_promise_load. cbn [mk_head h_kind h_sid h_flag].
+  - unfold dispatch, push_promise_load. cbn [mk_head h_kind h_sid h_flag].
     change (kind_new 5) with KPushPromise. cbv iota. rewrite Hs.
     change (has_bit 4 headers_PADDED) with false. cbn [bind].
-    destruct (lenN (enc_u32 promised ++ block) <? 5) eqn:E5; [apply N.ltb_lt in E5; lia|].
+    destruct (lenN (enc_u32 promised ++ block) <? 4) eqn:E5; [apply N.ltb_lt in E5; lia|].
     unfold enc_u32. cbn [app]. change (0 <? 0) with false. cbn [bind lift].
     assert (Hp' : fst (parse_sid ((promised / 16777216) mod 256) ((promised / 65536) mod 256)
                                  ((promised / 256) mod 256) (promised mod 256)) = promised).
@@ -1120,6 +1152,7 @@ Proof.
     change (7 =? T_PUSH_PROMISE) with false. change (7 =? T_PING) with false. change (7 =? T_GOAWAY) with true.
     cbv iota. change (negb (0 =? 0)) with false. cbv iota. unfold enc_u32. cbn [app]. rewrite Hp, Hc. reflexivity.
   - unfold dispatch, go_away_load. cbn [mk_head h_kind h_sid h_flag]. change (kind_new 7) with KGoAway. cbv iota.
+    change (negb (0 =? 0)) with false. cbv iota.
     destruct (lenN (enc_u32 last ++ enc_u32 code ++ debug) <? 8) eqn:E8; [apply N.ltb_lt in E8; lia|].
     unfold enc_u32. cbn [app lift].
     rewrite dec_u32_u32_of, Hc.
@@ -1437,48 +1470,46 @@ Qed.
 
 (* ---------------------------------------------------------------------------------------- *)
 (* C12, serialise-then-parse, frames that fit into one wire frame (HEADERS / PUSH_PROMISE whose
-   block needs CONTINUATION frames are treated in Proofs/ReadBufProofs.v, C12_roundtrip_stream).
+   block needs CONTINUATION frames are treated in Proofs/ReadBufProofs.v, C12_roundtrip_stream and
+   C12_roundtrip_reader).
 
    For every value [f] the encoder can be handed ([frame_wf]), the octets [encode] produces are
    parsed by the independent RFC parser to exactly [wire_value_of f], and by the model's own
-   parser back to [f].  The single exception on the model side is the documented deviation: a
-   PUSH_PROMISE with an empty block is not parsed back by PushPromise::load (h2 never produces
-   one: the block always carries the request pseudo-header fields). *)
+   parser back to [f]. *)
 Theorem C12_roundtrip : forall max f,
   42 <= max -> max <= MAX_MAX_FRAME_SIZE ->
   frame_wf max f = true -> single_frame max f = true ->
   exists bs,
     encode max f = EOk bs /\
     rfc_parse_frame max bs = Accept (wire_value_of f) /\
-    (pp_block_nonempty f = true -> model_parse max bs = POk (LdFrame f)).
+    model_parse max bs = POk (LdFrame f).
 Proof.
   intros max f H42 Hmax Hwf Hsingle.
   destruct f as [sid flags pad data | sid flags dep block | sid dep | sid flags promised block | s
                  | ack payload | last code debug | sid inc | sid code].
-  - destruct (roundtrip_data max sid flags pad data Hmax Hwf) as (bs & H1 & H2 & H3). eauto.
+  - exact (roundtrip_data max sid flags pad data Hmax Hwf).
   - cbn [single_frame] in Hsingle. apply N.leb_le in Hsingle.
-    destruct (roundtrip_headers max sid flags dep block Hmax Hwf Hsingle) as (bs & H1 & H2 & H3). eauto.
+    exact (roundtrip_headers max sid flags dep block Hmax Hwf Hsingle).
   - discriminate.
   - cbn [single_frame] in Hsingle. apply N.leb_le in Hsingle.
-    destruct (roundtrip_push_promise max sid flags promised block ltac:(lia) Hmax Hwf Hsingle) as (bs & H1 & H2 & H3).
-    exists bs. split; [exact H1|]. split; [exact H2|]. intros Hne. apply H3.
-    cbn [pp_block_nonempty] in Hne. apply negb_true_iff, N.eqb_neq in Hne. exact Hne.
-  - destruct (roundtrip_settings max s H42 Hmax Hwf) as (bs & H1 & H2 & H3). eauto.
-  - destruct (roundtrip_ping max ack payload ltac:(lia) Hmax Hwf) as (bs & H1 & H2 & H3). eauto.
-  - destruct (roundtrip_go_away max last code debug Hmax Hwf) as (bs & H1 & H2 & H3). eauto.
-  - destruct (roundtrip_window_update max sid inc ltac:(lia) Hmax Hwf) as (bs & H1 & H2 & H3). eauto.
+    exact (roundtrip_push_promise max sid flags promised block ltac:(lia) Hmax Hwf Hsingle).
+  - exact (roundtrip_settings max s H42 Hmax Hwf).
+  - exact (roundtrip_ping max ack payload ltac:(lia) Hmax Hwf).
+  - exact (roundtrip_go_away max last code debug Hmax Hwf).
+  - exact (roundtrip_window_update max sid inc ltac:(lia) Hmax Hwf).
   - assert (Hs : sid <> 0).
     { cbn [frame_wf] in Hwf. apply andb_true_iff in Hwf as [Hwf _]. apply andb_true_iff in Hwf as [_ Hwf].
       apply negb_true_iff, N.eqb_neq in Hwf. exact Hwf. }
-    destruct (roundtrip_reset max sid code ltac:(lia) Hmax Hwf Hs) as (bs & H1 & H2 & H3). eauto.
+    exact (roundtrip_reset max sid code ltac:(lia) Hmax Hwf Hs).
 Qed.
 
 (* the hypotheses are satisfiable, for each frame type *)
 Example frame_wf_examples :
-  forallb (fun f => frame_wf 16384 f && single_frame 16384 f && pp_block_nonempty f)
+  forallb (fun f => frame_wf 16384 f && single_frame 16384 f)
     [ FData 1 data_END_STREAM None [104; 105];
       FHeaders 3 (headers_END_HEADERS + headers_END_STREAM) None [130; 135];
       FPushPromise 1 headers_END_HEADERS 2 [130];
+      FPushPromise 1 headers_END_HEADERS 4 [];
       FSettings {| s_flags := 0; s_header_table_size := Some 4096; s_enable_push := Some 0;
                    s_max_concurrent_streams := None; s_initial_window_size := Some 65535;
                    s_max_frame_size := Some 16384; s_max_header_list_size := None;
@@ -1497,40 +1528,41 @@ Example C12_roundtrip_example :
 Proof. vm_compute. auto. Qed.
 
 (* ---------------------------------------------------------------------------------------- *)
-(* the documented deviations, one concrete frame each (both parsers evaluated) *)
+(* regressions for two repaired defects, and the two layering cases, one concrete frame each *)
 
 (* PUSH_PROMISE, stream 1, promised stream 2, empty fragment, END_HEADERS clear: legal per RFC 9113
-   6.6 (a CONTINUATION would follow); PushPromise::load wants 5 octets and answers MalformedMessage *)
-Example deviation_push_promise_empty_fragment :
+   6.6 (a CONTINUATION follows); accepted since "accept a PUSH_PROMISE whose first field block
+   fragment is empty" *)
+Example push_promise_empty_fragment_accepted :
   let bs := [0; 0; 4; 5; 0; 0; 0; 0; 1; 0; 0; 0; 2] in
-  deviation_of bs = DevPushPromiseEmptyFragment /\
   rfc_parse_frame 16384 bs = Accept (WPushPromise 1 false 2 []) /\
-  model_parse 16384 bs = PErr KPushPromise 1 MalformedMessage.
+  model_parse 16384 bs = POk (LdFrame (FPushPromise 1 0 2 [])).
 Proof. vm_compute. auto. Qed.
 
-(* GOAWAY on stream 3: RFC 9113 6.8 PROTOCOL_ERROR; GoAway::load never sees the stream id *)
-Example deviation_goaway_stream_id :
+(* GOAWAY on stream 3: RFC 9113 6.8 PROTOCOL_ERROR; refused by decode_frame since "a GOAWAY frame
+   on a non-zero stream is a connection error" *)
+Example goaway_stream_id_refused :
   let bs := [0; 0; 8; 7; 0; 0; 0; 0; 3; 0; 0; 0; 5; 0; 0; 0; 0] in
-  deviation_of bs = DevGoAwayStreamId /\
   rfc_parse_frame 16384 bs = Reject PROTOCOL_ERROR /\
-  model_parse 16384 bs = POk (LdFrame (FGoAway 5 0 [])).
+  model_parse 16384 bs = PErrGoAwayStream.
 Proof. vm_compute. auto. Qed.
 
-(* RST_STREAM on stream 0: refused by the RFC grammar; the codec passes it on, the check lives in
-   proto/streams/streams.rs recv_reset *)
-Example deviation_reset_stream_zero :
+(* RST_STREAM on stream 0: the codec hands it up unchanged; proto/streams/streams.rs recv_reset
+   answers PROTOCOL_ERROR (layering, see rfc_parse_frame_codec) *)
+Example reset_stream_zero_is_passed_up :
   let bs := [0; 0; 4; 3; 0; 0; 0; 0; 0; 0; 0; 0; 8] in
-  deviation_of bs = DevResetStreamZero /\
   rfc_parse_frame 16384 bs = Reject PROTOCOL_ERROR /\
+  rfc_parse_frame_codec 16384 bs = Accept (WRstStream 0 8) /\
+  deferred_to_upper_layer (WRstStream 0 8) = true /\
   model_parse 16384 bs = POk (LdFrame (FReset 0 8)).
 Proof. vm_compute. auto. Qed.
 
 (* CONTINUATION on stream 0: the single-frame loader does not look at the stream id; decode_frame's
    book-keeping refuses it (Proofs/ReadBufProofs.v continuation_stream_zero_refused) *)
-Example deviation_continuation_stream_zero :
+Example continuation_stream_zero_is_passed_to_reassembly :
   let bs := [0; 0; 1; 9; 4; 0; 0; 0; 0; 130] in
-  deviation_of bs = DevContinuationStreamZero /\
   rfc_parse_frame 16384 bs = Reject PROTOCOL_ERROR /\
+  rfc_parse_frame_codec 16384 bs = Accept (WContinuation 0 true [130]) /\
   model_parse 16384 bs = POk (LdContinuation 0 true [130]).
 Proof. vm_compute. auto. Qed.
 
@@ -1543,14 +1575,14 @@ Example error_code_latitude_ping :
   model_parse 16384 bs = PErr KPing 0 BadFrameSize.
 Proof. vm_compute. auto. Qed.
 
-(* the hypotheses of C12_parse_agrees_with_rfc are satisfiable, by accepted and by rejected frames *)
+(* the hypothesis of C12_parse_agrees_with_rfc is satisfiable, by accepted and by rejected frames *)
 Example C12_parse_agrees_example :
   let ok := [0; 0; 5; 0; 9; 128; 0; 0; 3; 2; 104; 105; 0; 0] in      (* padded DATA, reserved bit set *)
   let bad := [0; 0; 2; 0; 8; 0; 0; 0; 3; 2; 104] in                    (* padding >= payload *)
-  bytes_ok ok = true /\ deviation_of ok = DevNone /\
+  bytes_ok ok = true /\
   model_parse 16384 ok = POk (LdFrame (FData 3 (data_END_STREAM + data_PADDED) (Some 2) [104; 105])) /\
-  rfc_parse_frame 16384 ok = Accept (WData 3 true (Some 2) [104; 105]) /\
-  bytes_ok bad = true /\ deviation_of bad = DevNone /\
+  rfc_parse_frame_codec 16384 ok = Accept (WData 3 true (Some 2) [104; 105]) /\
+  bytes_ok bad = true /\
   model_parse 16384 bad = PErr KData 3 TooMuchPadding /\
-  rfc_parse_frame 16384 bad = Reject PROTOCOL_ERROR.
+  rfc_parse_frame_codec 16384 bad = Reject PROTOCOL_ERROR.
 Proof. vm_compute. repeat split; reflexivity. Qed.
